@@ -537,6 +537,22 @@ func clip(s string, n int) string {
 // runCheck runs rapid.Check(tb, prop) in its own goroutine (FailNow is
 // runtime.Goexit, the semantics of testing.T) and records whether Check
 // returned, ended via FailNow, or let a panic escape.
+// hangLimit is the in-process watchdog for one call into rapid: it only speeds up the detection of a hang.
+// When it fires the shard dumps its goroutines and exits without a result, and the runner re-runs the
+// scenario alone; only a repeatable hang is reported as a violation.
+const hangLimit = 150 * time.Second
+
+func waitOrDie(done <-chan struct{}, what string) {
+	select {
+	case <-done:
+	case <-time.After(hangLimit):
+		fmt.Fprintf(os.Stderr, "WATCHDOG: %s did not return within %v; goroutine dump follows\n", what, hangLimit)
+		buf := make([]byte, 1<<20)
+		os.Stderr.Write(buf[:runtime.Stack(buf, true)])
+		os.Exit(3)
+	}
+}
+
 func runCheck(tb *recTB, prop func(*rapid.T)) {
 	done := make(chan struct{})
 	go func() {
@@ -554,7 +570,7 @@ func runCheck(tb *recTB, prop func(*rapid.T)) {
 		tb.returned = true
 		tb.mu.Unlock()
 	}()
-	<-done
+	waitOrDie(done, "rapid.Check")
 }
 
 // ---------------------------------------------------------------------------
